@@ -297,11 +297,17 @@ def _do_call(an, st, bi, t):
                     break
             if kind != "panic":
                 break
+        parts = an.panic_guard(bi, parts=True) if an.collect else None
+        if parts and len(parts) > 1 and len({l for _, l in parts}) == len(parts):
+            # `assert!(a && b)`: one obligation per way into the panic block, so that a caller which establishes one
+            # conjunct and not the other is told apart from a caller which establishes neither
+            for g, label in parts:
+                ctx.oblige("S5", False, None, "explicit %s! reachable unless %s" % (kind, label), ("cond", g), tag=" #" + label)
+            return []
         lift = None
-        if an.collect:
-            g = an.panic_guard(bi)
-            if g is not None:
-                lift = ("cond", g)
+        if parts:
+            g = parts[0][0] if len(parts) == 1 else ("and",) + tuple(c for c, _ in parts)
+            lift = ("cond", g)
         ctx.oblige("S5", False, None, "explicit %s! reachable" % kind, lift)
         return []
     if an.interproc is not None:
